@@ -25,6 +25,12 @@ fn unflatten(value: Value, separator: &Value, recursive: Value) -> Resolved {
     let separator = separator.try_bytes_utf8_lossy()?.into_owned();
     let recursive = recursive.try_boolean()?;
     let map = value.try_object()?;
+    // An empty separator never splits a key, so every key is a single segment.
+    // (`str::split_once("")` matches at offset 0 without consuming anything, which made the
+    // grouping below recurse forever.)
+    if separator.is_empty() {
+        return Ok(map.into());
+    }
     Ok(do_unflatten(map.into(), &separator, recursive))
 }
 
